@@ -200,6 +200,10 @@ def lean_driver(lines, timeout=900):
         if not ok:
             raise RuntimeError("cannot build I2N.Model.Show: " + log[-800:])
         _built = True
+    if 'name = "drv_show"' in open(os.path.join(vlib.LEAN, "lakefile.toml")).read():
+        ok, log = vlib.lake_build(["drv_show"])       # a compiled driver, once the lakefile declares one
+        if ok:
+            return vlib.driver("drv_show", lines, timeout=timeout)
     data = "\n".join(lines) + "\n"
     p = subprocess.run(["lake", "env", "lean", "--run", "Driver/Show.lean"], cwd=vlib.LEAN, input=data,
                        stdout=subprocess.PIPE, stderr=subprocess.PIPE, text=True, timeout=timeout)
@@ -677,8 +681,17 @@ def search(ctx, reason):
             c["lines"] = vlib.shrink_list(c["lines"], fails)
 
 
+def _norm_lines(lines):
+    return [dict(l, size=tuple(l["size"])) if isinstance(l, dict) else l for l in lines]
+
+
 def replay(ctx, payload):
-    c = payload["case"]
+    """re-execute one case (JSON turned the size tuples into lists)"""
+    c = dict(payload["case"])
+    if c.get("kind") == "qcow":
+        c["lines"] = _norm_lines(c["lines"])
+    elif c.get("kind") == "vt":
+        c["lines"] = [_norm_lines(ls) for ls in c["lines"]]
     run_cases(ctx, [c])
 
 
